@@ -177,12 +177,12 @@ const ntRule = "; non-trivial = at least one fault fired or the seeded scheduler
 var props = map[string]propSpec{
 	"C01": storeProp("fault_enumeration", 50, 900, "one case = seeded ingest history (1-4 rounds of concurrent bulks/searches/fetches) + planned crash point (k-th write/sync/any mutating disk op on .docs/.meta, power-loss image with lost/torn tail, or process exit) + restart + validation against the model after every round; a fifth of the cases are the recovery sub-profile: crash inside the write of a large bulk (long torn tail), restart, 1-4 one-document bulks, power loss with little or nothing of the page cache surviving"+ntRule),
 	"C03": withVariants(storeProp("exploration", 60, 900, "one case = seeded corpus ingested into one fraction; the same battery (exact/wildcard/range/boolean searches both orders, limits, totals, histograms, aggregations, fetch lists with absent ids) is answered by the active fraction, the freshly sealed (preloaded) one, the one loaded from files after restart, after cache reset and during timer-driven cache eviction with readers overlapping; every answer must equal the model (hence each other); build variants of the on-disk block constants (default 64Ki/4Ki/16KiB, small 64/64/1KiB, tiny LIDBlockCap 8, 4 ids per block, 64 B blocks) so that postings, ID tables and token dictionaries straddle block boundaries with tens of documents; knob swarm over DocBlockSize, zstd level, SkipSortDocs, cache size 4KiB..256MiB"+ntRule), "small", "tiny"),
-	"C05": withVariants(clusterProp(45, 600, "one case = 1-3 shards x 1-3 replicas of real stores behind the real bulk.SeqDBClient and search.Ingestor on the simulated transport (seeded per-call latencies reorder shard replies); bulks are routed by the client's shuffled shard choice, per-store FracSize is small so rotation/sealing happen at different moments on different nodes, timestamps arrive out of order so fraction ranges overlap, FractionsPerIteration differs per store, optional seal/restart of a store; searches through the proxy: both orders, limits, totals, histograms, paging with sizes 1..8 walked page by page, documents stream; compared with the model over the union; in 30% of the cases some bulks also reach a second shard (documents present on several shards): listed once, paging exact, total/histogram exact when the listing covers the whole result; aggregation limits as shipped in half of the cases"+"; build variant tiny of the on-disk block constants (LIDBlockCap 8, 4 ids per block, 64 B blocks) in half of the runs so that sealed fractions have many blocks"+ntRule), "tiny"),
-	"C06": withVariants(clusterProp(45, 600, "same cluster as C05 with an aggregation/histogram-heavy battery: count/unique/sum/min/max/avg/quantile with and without group-by, histograms with intervals 1ms..60s; partial results of fractions are merged per store and shard replies are merged by the proxy in simulated arrival order; every bin compared with values computed directly from the matching documents (quantiles exactly, samples <= 8096); aggregation limits as shipped (per-source counting path) in half of the cases"+"; build variant tiny of the on-disk block constants (LIDBlockCap 8, 4 ids per block, 64 B blocks) in half of the runs so that sealed fractions have many blocks"+ntRule), "tiny"),
+	"C05": withVariants(clusterProp(45, 600, "one case = 1-3 shards x 1-3 replicas of real stores behind the real bulk.SeqDBClient and search.Ingestor on the simulated transport (seeded per-call latencies reorder shard replies); bulks are routed by the client's shuffled shard choice, per-store FracSize is small so rotation/sealing happen at different moments on different nodes, timestamps arrive out of order so fraction ranges overlap, FractionsPerIteration differs per store, optional seal/restart of a store; searches through the proxy: both orders, limits, totals, histograms, paging with sizes 1..8 walked page by page, documents stream; compared with the model over the union; in 30% of the cases some bulks also reach a second shard (documents present on several shards): listed once, paging exact, total/histogram exact when the listing covers the whole result; aggregation limits as shipped in half of the cases; every fourth seed is a store-level sub-profile: one store under continuous size-based retention, overlapping fractions, searches in chunks of 1-2 fractions that take simulated time, complete listings alternating with limits 1-8, oracle = soundness + acknowledged documents of fractions sealed before the search and still served after it are listed unless the listing is full and ends before them"+"; build variant tiny of the on-disk block constants (LIDBlockCap 8, 4 ids per block, 64 B blocks) in half of the runs so that sealed fractions have many blocks"+ntRule), "tiny"),
+	"C06": withVariants(clusterProp(45, 600, "same cluster as C05 with an aggregation/histogram-heavy battery: count/unique/sum/min/max/avg/quantile with and without group-by, histograms with intervals 1ms..60s, one aggregation in four as a time series with its own interval (7 ms..1 h, compared per group x bucket), final values computed by the proxy from the merged summaries; partial results of fractions are merged per store and shard replies are merged by the proxy in simulated arrival order; every bin compared with values computed directly from the matching documents (quantiles exactly, samples <= 8096); aggregation limits as shipped (per-source counting path) in half of the cases"+"; build variant tiny of the on-disk block constants (LIDBlockCap 8, 4 ids per block, 64 B blocks) in half of the runs so that sealed fractions have many blocks"+ntRule), "tiny"),
 	"C07": withVariants(storeProp("exploration", 50, 900, "one case = 1-4 writer and 1-4 reader clients (search+immediate fetch of hits, fetch of absent/border ids) concurrent with the real maintenance loop (rotate->seal->release, retention in a third of the runs) and cache cleaner; seeded scheduler pre-empts at every lock/channel/wait and at statement level in the index-update code; per-request soundness checks inside readers, full model equality once writers are idle"+"; build variant tiny of the on-disk block constants (LIDBlockCap 8, 4 ids per block, 64 B blocks) in half of the runs so that sealed fractions have many blocks"+ntRule), "tiny"),
 	"C08": withVariants(storeProp("fault_enumeration", 50, 900, "one case = seeded corpus, then a seal (forced, size-triggered by the maintenance loop, or on graceful stop) with one planned fault: crash/process-exit at the k-th mutating disk operation of the seal (64 consecutive seeds walk k=1..64 over the same corpus), or the k-th write/sync/rename/create on the index/sorted-docs output failing with EIO/ENOSPC/short write; validation right after the seal (if the process survived) and after restart"+"; build variant tiny of the on-disk block constants (LIDBlockCap 8, 4 ids per block, 64 B blocks) in half of the runs so that sealed fractions have many blocks"+ntRule), "tiny"),
-	"C14": withVariants(storeProp("exploration", 45, 600, "one case = documents timestamped -72h..+3h relative to the simulated clock (around the 10-minute rule, the 24h clip and minute-bucket borders), clock jumps of hours between fractions, seal, restart with present/deleted/garbled/stale .frac-cache; battery of range queries whose ends fall on/around document timestamps and bucket borders, compared with the model that examines every document; a quarter of the documents repeat the previous timestamp (runs of equal milliseconds across ID-block and bucket borders)"+"; build variant tiny of the on-disk block constants (LIDBlockCap 8, 4 ids per block, 64 B blocks) in half of the runs so that sealed fractions have many blocks"+ntRule), "tiny"),
-	"C15": storeProp("fault_enumeration", 50, 900, "one case = 2-5 rounds of sequential bulks with small FracSize/TotalSize so that create->rotate->seal->retention->.frac-cache cycle, a planned crash at the k-th create/rename/remove/dirsync/any mutating op per round, power loss/kill/stop, optional .frac-cache tampering; after every restart: store comes up, every known fraction is wholly served or wholly gone, served ones are the newest, fractions with .del files in the image never serve again"+ntRule),
+	"C14": withVariants(storeProp("exploration", 45, 600, "one case = documents timestamped -72h..+3h relative to the simulated clock (around the 10-minute rule, the 24h clip and minute-bucket borders), clock jumps of hours between fractions, seal, restart with present/deleted/garbled/stale/moved (valid, paths of another location) .frac-cache; battery of range queries whose ends fall on/around document timestamps and bucket borders, compared with the model that examines every document; a quarter of the documents repeat the previous timestamp (runs of equal milliseconds across ID-block and bucket borders), 15% of the documents of later fractions tie with a border document of an earlier fraction"+"; build variant tiny of the on-disk block constants (LIDBlockCap 8, 4 ids per block, 64 B blocks) in half of the runs so that sealed fractions have many blocks"+ntRule), "tiny"),
+	"C15": storeProp("fault_enumeration", 50, 900, "one case = 2-5 rounds of sequential bulks with small FracSize/TotalSize so that create->rotate->seal->retention->.frac-cache cycle, a planned crash at the k-th create/rename/remove/dirsync/any mutating op per round, power loss/kill/stop, optional .frac-cache tampering (deleted, garbled, truncated, foreign entry, valid with the paths of another location); after every restart: store comes up, every known fraction is wholly served or wholly gone, served ones are the newest, fractions with .del files in the image never serve again"+ntRule),
 	"C17": withVariants(storeProp("exploration", 45, 600, "one case = history of bulks with re-deliveries (whole-bulk repeats, partial overlaps with new documents, documents of several earlier bulks, the same bulk by two clients concurrently), validation on the active fraction, after seal and after restart/replay; set-semantics model; totals/histograms/aggregations/DocsTotal strict while all copies sit in one fraction; in 35% of the cases documents carry nested elements (several metas under one ID, row semantics in the model: listing de-duplicated, counts compared where every matching document matches through exactly one row)"+"; build variant tiny of the on-disk block constants (LIDBlockCap 8, 4 ids per block, 64 B blocks) in half of the runs so that sealed fractions have many blocks"+ntRule), "tiny"),
 	"C09": {Engine: "proxysim", Level: "fault_enumeration", Batch: 300, QuickSec: 30, ThorSec: 600,
 		Rule: "one case = topology 1-3 shards x 1-3 replicas hot (+ optional long-term tier), real bulk.SeqDBClient with the real circuit breaker (timeouts 50ms..1s, thresholds, sleep window on the fake clock) over scripted stub stores; per replica and call one of: ok, error, hang until the deadline, success after the deadline, reply lost, answer right at the deadline; 1-2 concurrent clients; oracle over the stubs' call log: acknowledged => some hot shard (and some long-term shard) has every replica with a successful call carrying exactly this payload, at most BulkMaxTries deliveries per replica, progress once faults stop; non-trivial = a non-ok outcome fired or the scheduler pre-empted; distinct = distinct (interleaving hash, fired outcome counts)",
@@ -190,7 +190,7 @@ var props = map[string]propSpec{
 		Real:   []string{"proxy/bulk.SeqDBClient (storeDocs, sendBulkToStores, shard.Bulk, write status)", "network/circuitbreaker + cep21/circuit (real)", "second lane (every 4th chunk): the same client against real stores (fracmanager, frac, storeapi.GrpcV1) that crash in the middle of their writes, lose replies and are partitioned; afterwards every acknowledged bulk must sit, byte for byte, on every replica of some hot shard (and some long-term shard)"}, Stub: []string{"stores = scripted StoreApiClient stubs (first lane)", "transport = simnet (second lane)", "clock = synctest fake clock", "scheduling = verifsim"},
 		Variants: []string{"lane:storesim:cluster-c09:4"}},
 	"C10": {Engine: "proxysim", Level: "exploration", Batch: 300, QuickSec: 30, ThorSec: 600,
-		Rule: "one case = an ES bulk body from a grammar (action/document lines, valid object documents with escapes/unicode/nesting, non-objects, invalid JSON, over-size lines, empty lines, CRLF, unknown actions, missing final newline, body cut at byte k, read error at byte k, gzip) handed to the real BulkHandler.ServeHTTP -> real bulk.Ingestor (processor, indexer, tokenizers) -> capturing StorageClient, at a simulated clock; document times at -drift-1s, -drift, -drift+1s, +future-1s, +future, +future+1s and far; the same body is delivered four times with different chunkings of the reader (whole, byte by byte, two seeded chunkings); oracle = independent framing parser + time rule; the outcome must be identical for every chunking; in 40% of the cases all deliveries go through one long-lived ingestor with the simulated clock advancing 0 ms .. 2 x drift between them (pooled per-request state meets requests of different times); in 30% a concurrent phase follows: 2-4 requests (documents marked with their request number) at once on one handler, optionally after a request whose store call failed, the body reader yielding at every Read under the seeded scheduler: every request must get the outcome of its own body and every storage call must carry the documents of exactly one request; non-trivial = always (every case exercises the stream); distinct = distinct (status counts, interleaving hash)",
+		Rule: "one case = an ES bulk body from a grammar (action/document lines, valid object documents with escapes/unicode/nesting, non-objects, invalid JSON, over-size lines, empty lines, CRLF, unknown actions, missing final newline, body cut at byte k, read error at byte k, gzip) handed to the real BulkHandler.ServeHTTP -> real bulk.Ingestor (processor, indexer, tokenizers) -> capturing StorageClient, at a simulated clock; document times at -drift-1s, -drift, -drift+1s, +future-1s, +future, +future+1s and far, 30% of the timed documents with a second time field of another name, format and instant; the same body is delivered four times with different chunkings of the reader (whole, byte by byte, two seeded chunkings); oracle = independent framing parser + time rule; the outcome must be identical for every chunking; in 40% of the cases all deliveries go through one long-lived ingestor with the simulated clock advancing 0 ms .. 2 x drift between them (pooled per-request state meets requests of different times); in 30% a concurrent phase follows: 2-4 requests (documents marked with their request number) at once on one handler, optionally after a request whose store call failed, the body reader yielding at every Read under the seeded scheduler: every request must get the outcome of its own body and every storage call must carry the documents of exactly one request; non-trivial = always (every case exercises the stream); distinct = distinct (status counts, interleaving hash)",
 		Assume: []string{"document lines stay clear of the size limit itself (50 bytes below / 10 above): the boundary behaviour of the limit depends on the line terminator and is not part of the property", "valid/invalid JSON judged by encoding/json on clear-cut cases"},
 		Real:   []string{"proxyapi.BulkHandler (esBulkDocReader, gzip, response)", "proxy/bulk.Ingestor, processor, indexer", "tokenizer", "frac.DocsMetasCompressor"}, Stub: []string{"storage = capturing StorageClient that decodes the payload", "request body = seeded chunk reader", "clock = synctest fake clock"}},
 	"C16": {Engine: "proxysim", Level: "fault_enumeration", Batch: 300, QuickSec: 45, ThorSec: 600,
@@ -203,7 +203,7 @@ var props = map[string]propSpec{
 		Assume: []string{"a cache is released only when no lookup on it is in flight (seq-db releases under the fraction's write lock, lookups hold its read lock)", "the cleaner methods are called from one task, as CacheMaintainer does"},
 		Real:   []string{"cache.Cache", "cache.Cleaner"}, Stub: []string{"loaders are harness code", "goroutine scheduling = verifsim seeded scheduler"},
 		Variants: []string{"tiny"}},
-	"C19": withVariants(storeProp("fault_enumeration", 45, 600, "one case = 2-5 fractions (active+sealed), 1-3 asynchronous searches (query+histogram+aggregations), planned crash at the k-th rename of *.qpr / *.info, write to *.tmp or any mutating op, power loss/kill/stop, restart; the request must be known, finish within one simulated hour and equal the synchronous search and the model; request ids are random version-4 UUIDs; in 30% of the cases group-by values look like the key syntax of persisted partial results (\"200|/api\", \"12|\", \"0|alpha\"); second lane (every 3rd chunk): the proxy's StartAsyncSearch/FetchAsyncSearchResult fan-out over 1-3 shards x 1-2 replicas of real stores on simnet, stores killed / losing power / partitioned and restarted while the searches run and are polled: a response that says done without error must equal the model, and once every store is back the search must become done within one simulated hour"+ntRule), "lane:storesim:cluster-c19:3"),
+	"C19": withVariants(storeProp("fault_enumeration", 45, 600, "one case = 2-5 fractions (active+sealed), 1-3 asynchronous searches (query+histogram+aggregations), planned crash at the k-th rename of *.qpr / *.info, write to *.tmp or any mutating op, power loss/kill/stop, restart; the request must be known, finish within one simulated hour and equal the synchronous search and the model; request ids are random version-4 UUIDs; in 30% of the cases group-by values look like the key syntax of persisted partial results (\"200|/api\", \"12|\", \"0|alpha\"); in 40% ingestion goes on right after the searches were started (rotation, bulks into a fraction created after the start): a listed document submitted after the start must live in a fraction that existed at the start; second lane (every 3rd chunk): the proxy's StartAsyncSearch/FetchAsyncSearchResult fan-out over 1-3 shards x 1-2 replicas of real stores on simnet, stores killed / losing power / partitioned and restarted while the searches run and are polled: a response that says done without error must equal the model, and once every store is back the search must become done within one simulated hour"+ntRule), "lane:storesim:cluster-c19:3"),
 }
 
 type knownEntry struct {
@@ -283,6 +283,8 @@ func main() {
 		os.Exit(cmdReplay(os.Args[2:]))
 	case "selftest":
 		os.Exit(cmdSelftest(os.Args[2:]))
+	case "trace":
+		os.Exit(cmdTrace(os.Args[2:]))
 	default:
 		fatal2("unknown command %s", os.Args[1])
 	}
@@ -897,6 +899,50 @@ func cmdReplay(args []string) int {
 		fmt.Fprintln(os.Stderr, r.Infra)
 		return 2
 	}
+	return 0
+}
+
+// ---- trace: run the case of one run seed and print its event log (debugging aid) -------------------
+
+// cmdTrace: verif trace <prop> --run-seed <n> [--lane <key>]. The run seed is the per-run seed printed
+// with a violation (seed=...), not the batch seed.
+func cmdTrace(args []string) int {
+	var prop, laneKey string
+	var seed uint64
+	for i := 0; i < len(args); i++ {
+		switch args[i] {
+		case "--run-seed":
+			i++
+			seed, _ = strconv.ParseUint(args[i], 10, 64)
+		case "--lane":
+			i++
+			laneKey = args[i]
+		default:
+			prop = args[i]
+		}
+	}
+	spec, ok := props[prop]
+	if !ok {
+		fatal2("no check for property %q", prop)
+	}
+	if laneKey == "" {
+		laneKey = "default"
+	}
+	ln := parseLane(laneKey, spec)
+	b, err := buildEngine(ln.engine, ln.variant)
+	if err != nil {
+		fatal2("%v", err)
+	}
+	defer b.cleanup()
+	rs, err := runWorker(b.bin, map[string]any{"mode": "gen", "property": prop, "seed": seed, "count": 1, "profile": ln.profile, "emit_case": true}, 180*time.Second, "VERIF_FULLTRACE=1")
+	if err != nil {
+		fatal2("%v", err)
+	}
+	r := rs[0]
+	for _, l := range r.Trace {
+		fmt.Println("  ", l)
+	}
+	fmt.Printf("outcome=%s steps=%d digest=%s probes=%v\n", r.Outcome, r.Steps, r.Digest, r.Probes)
 	return 0
 }
 
